@@ -7,4 +7,6 @@ mod stubs;
 mod amount;
 #[cfg(kani)]
 mod parse;
+#[cfg(kani)]
+mod quote_bytes;
 extern crate alloc;
